@@ -24,7 +24,9 @@ func (c *batchCollector) Subscribe(id int, ch <-chan *gossip.Message) { c.ch = c
 
 var senderAgentSeq = 0
 
-func newQuietAgent() (*gossip.Agent, *batchCollector, error) {
+func newQuietAgent() (*gossip.Agent, *batchCollector, error) { return newQuietAgentQ(1 << 16) }
+
+func newQuietAgentQ(queue int) (*gossip.Agent, *batchCollector, error) {
 	conf := gossip.DefaultConfig()
 	senderAgentSeq++
 	conf.NodeName = fmt.Sprintf("c17-%d-%d", os.Getpid(), senderAgentSeq)
@@ -35,7 +37,7 @@ func newQuietAgent() (*gossip.Agent, *batchCollector, error) {
 		return nil, nil, err
 	}
 	col := &batchCollector{}
-	a.Out.Subscribe(gossip.BatchMessageType, col, 1<<16)
+	a.Out.Subscribe(gossip.BatchMessageType, col, queue)
 	return a, col, nil
 }
 
@@ -338,6 +340,52 @@ func senderCmd(out *cq.Out, seed uint64, tier string) {
 		out.Count("sender_end_to_end_runs", 1)
 		n.Close(true)
 		os.RemoveAll(dir)
+	}
+
+	// ---- (6) a burst against a consumer that is slower than the sender (the agent's forwarding loop has a queue of 255
+	// and sends over the network): every snapshot still leaves exactly once, however long the consumer takes
+	{
+		B, total := 10, 5000
+		desc := map[string]interface{}{"seed": seed, "scenario": "burst-slow-consumer", "batch_size": B, "snapshots": total, "consumer_queue": 255, "consumer_ms_per_batch": 2}
+		out.Note(desc)
+		if agent, col, err := newQuietAgentQ(255); err == nil {
+			sd := server.NewSender(agent, signer, B, 1, 3)
+			sd.Interval = 50 * time.Millisecond
+			ch := make(chan *protocol.Snapshot, 1<<16)
+			sent := map[uint64]*protocol.Snapshot{}
+			for v := uint64(0); v < uint64(total); v++ {
+				s := mkSnap(rng, v)
+				sent[v] = s
+				ch <- s
+			}
+			sd.Start(ch)
+			var bs []*protocol.BatchSnapshots
+			undec, got := 0, 0
+			deadline := time.Now().Add(25 * time.Second)
+			idle := 0
+			for got < total && time.Now().Before(deadline) && idle < 1500 {
+				select {
+				case m := <-col.ch:
+					idle = 0
+					var b protocol.BatchSnapshots
+					if err := b.Decode(m.Payload); err != nil {
+						undec++
+					} else {
+						bs = append(bs, &b)
+						got += len(b.Snapshots)
+					}
+					time.Sleep(2 * time.Millisecond)
+				default:
+					idle++
+					time.Sleep(2 * time.Millisecond)
+				}
+			}
+			more, u2 := collectBatches(col, 0, 500*time.Millisecond)
+			bs = append(bs, more...)
+			sd.Stop()
+			checkBatches(out, "C17", bs, undec+u2, B, total, sent, signer, desc)
+			out.Count("sender_burst_runs", 1)
+		}
 	}
 
 	f, _ := os.Create(out.Dir + "/cases.v")
